@@ -39,6 +39,8 @@ type Solver struct {
 	out       *bufio.Reader
 	declared  map[string]Sort
 	nq        int
+	level     int
+	sent      int
 	LogW      io.Writer
 }
 
@@ -69,6 +71,8 @@ func (s *Solver) start() {
 	s.out = bufio.NewReaderSize(out, 1<<20)
 	s.declared = map[string]Sort{}
 	s.nq = 0
+	s.level = 0
+	s.sent = 0
 	if strings.Contains(s.Bin, "cvc5") {
 		fmt.Fprintf(s.in, "(set-option :tlimit-per %d)\n(set-logic ALL)\n", s.TimeoutMs)
 	} else {
@@ -149,24 +153,51 @@ func (s *Solver) declare(ts []*Term) {
 	}
 }
 
-// Check decides the conjunction of the assertions. If wantModel, a model for the given
-// terms (usually variables) is returned on sat.
-func (s *Solver) Check(assertions []*Term, wantModel []*Term) (Result, map[string]*big.Int) {
+// BeginPath starts a fresh assertion scope: the path condition of one path is
+// asserted incrementally inside it (SyncPC) and queries push/pop on top.
+func (s *Solver) BeginPath() {
+	if s.nq > 30000 || s.cmd == nil {
+		s.restart()
+	}
+	if s.level > 0 {
+		s.send("(pop 1)\n")
+	}
+	s.send("(push 1)\n")
+	s.level = 1
+	s.sent = 0
+	s.declared = map[string]Sort{}
+}
+
+// Check decides pc ∧ extra. pc must extend the pc of earlier calls within the same path.
+// If want is given, values for those terms are returned on sat.
+func (s *Solver) Check(pc []*Term, extra *Term, wantModel []*Term) (Result, map[string]*big.Int) {
 	t0 := time.Now()
 	defer func() { atomic.AddInt64(&GStats.NanosInSolver, int64(time.Since(t0))) }()
 	atomic.AddInt64(&GStats.Queries, 1)
 	s.nq++
-	if s.nq > 4000 { // keep solver memory bounded
-		s.restart()
+	if s.level == 0 {
+		s.BeginPath()
 	}
-	all := append([]*Term{}, assertions...)
-	all = append(all, wantModel...)
-	s.declare(all)
+	if s.sent > len(pc) {
+		panic("solver: path condition shrank within a path")
+	}
 	var sb strings.Builder
-	sb.WriteString("(push 1)\n")
-	for _, a := range assertions {
+	newTerms := append([]*Term{}, pc[s.sent:]...)
+	if extra != nil {
+		newTerms = append(newTerms, extra)
+	}
+	newTerms = append(newTerms, wantModel...)
+	s.declare(newTerms)
+	for _, a := range pc[s.sent:] {
 		sb.WriteString("(assert ")
 		sb.WriteString(a.SMT())
+		sb.WriteString(")\n")
+	}
+	s.sent = len(pc)
+	sb.WriteString("(push 1)\n")
+	if extra != nil {
+		sb.WriteString("(assert ")
+		sb.WriteString(extra.SMT())
 		sb.WriteString(")\n")
 	}
 	sb.WriteString("(check-sat)\n")
@@ -177,6 +208,7 @@ func (s *Solver) Check(assertions []*Term, wantModel []*Term) (Result, map[strin
 	case err != nil:
 		atomic.AddInt64(&GStats.Errors, 1)
 		s.restart()
+		s.level = 0
 		atomic.AddInt64(&GStats.UnknownN, 1)
 		return Unknown, nil
 	case line == "sat":
